@@ -9,8 +9,9 @@ from hv import Case
 from props.c09 import campaign_impl_only
 
 SPEC = {
-    "lean_modules": ["Honeycomb.Props.C10"],
-    "required_theorems": ["C10_build_wf_or_error", "C10_load_wf_or_error", "C10_load_never_panics"],
+    "lean_modules": ["Honeycomb.Props.C10", "Honeycomb.Props.C10b"],
+    "required_theorems": ["C10_build_wf_or_error", "C10_load_wf_or_error", "C10_load_never_panics",
+                          "C10_chars_load_wf_or_error", "C10_chars_never_panics"],
     "trusted_base": [
         "Lean 4.33 kernel; axioms propext, Classical.choice, Quot.sound only",
         "hand-written token-level model Honeycomb/Model/CmapText.lean (parseFile, build, load — mirroring the validating "
@@ -20,8 +21,11 @@ SPEC = {
         "reading of the format that also predicts the exact reply) on the implementation's snapshot",
     ],
     "assumptions": [
-        "token level: texts are lists of lines of printable-ASCII tokens separated by single blanks; `|` cannot be a token; "
-        "the tokenisation of raw text (characters -> token lines) is outside the model",
+        "character level (Props/C10b): `loadChars` mirrors from_cmap_file(..).build() on the characters (str::lines, trim, "
+        "starts_with / contains / trim_matches / to_lowercase (ASCII lowering: no non-ASCII string lowers to a section name) / "
+        "split('#'), split_whitespace with Rust's Unicode White_Space, parse::<u32/usize>) and is PROVED equal to the token-level "
+        "`load` of the tokenised text for EVERY character string (parseFileC_eq, loadChars_eq); the token streams use printable "
+        "ASCII tokens (`|` cannot be a token), the raw stream any UTF-8 text",
         "`accepted section layout` = CMapFile::try_from returns Ok (model: parseFile f = .ok cf); through the public "
         "from_cmap_file every rejected layout / META line is a documented panic (reported as `layout …`, outside the "
         "quantifier; in the model `load` returns them as errors)",
@@ -40,9 +44,17 @@ SPEC = {
             "valid layout, and a token soup around the section syntax; oracle: the reply is never `panic`, it equals the reply "
             "predicted by the independent Python reading (exact BuilderError variant and message code), and on `ok` the snapshot is "
             "WF2 (Python and `wf`) and equal to the map the text denotes (n, every image, flags, vertices: last line wins). "
-            "distinct_nontrivial = distinct implementation transcripts.",
+            "Raw character stream (loadhex): the same (mutated) texts rendered with CRLF, tabs, VT/FF, NBSP, EM SPACE, "
+            "LINE SEPARATOR, NEL, IDEOGRAPHIC SPACE as blanks and FS/US/ZWSP/BOM/NUL as look-alike NON-blanks, plus random "
+            "character edits (non-digits, signs, overflow >= 2^32 and >= 2^64, glued tokens, broken headers, lost newlines, "
+            "non-ASCII digits) and files that are not UTF-8; expectation from an independent Python tokeniser (Rust's White_Space "
+            "set) + reading. distinct_nontrivial = distinct implementation transcripts.",
     "not_proved": [
-        "tokenisation of raw text and the float parsing of coordinates (character level) are outside the model",
+        "the float parsing of coordinate tokens beyond the finite decimal grammar with exponent <= 30 and exact values "
+        "(rounding to f64, inf/nan) is outside the model; the model additionally accepts the harness notation p/q, which the real "
+        "reader rejects with BadValue (never fed raw)",
+        "bytes that are not UTF-8: from_cmap_file panics in read_to_string(..).expect(..) before a text exists (documented "
+        "`# Panics`; outside the quantifier, exercised and compared in the raw stream)",
         "the first stage through the public API: from_cmap_file unwraps the section parser's error (documented panic); the "
         "theorem is about build() after an accepted layout, as the property is",
     ],
@@ -427,6 +439,160 @@ def special_coord_cases(count, rng):
 
 
 # ---------------------------------------------------------------------------------------------
+# character level (C10b): raw texts through `loadhex`
+# ---------------------------------------------------------------------------------------------
+
+SEPS = [" "] * 6 + ["  ", "\t", " \t ", " ", " ", "\x0b", "\x0c", "\r", " ", "\u0085", "　"]
+FAKE_SEPS = ["\x1c", "\x1f", "​", "﻿", "_", "\x00"]   # NOT White_Space for Rust: they glue tokens
+EDIT_POOL = list("0123456789") * 3 + list("+-#[]x.e/") + [" ", "\t", "\n", "\r", "\r\n", " ", "\x1c", "​"]
+
+
+def undo_ratio(tok):
+    """loadhex feeds the text as it is: valid p/q tokens are written as exact decimals"""
+    if cg._RATIO.match(tok):
+        a, b = tok.split("/")
+        if int(b) != 0 and (int(b) & (int(b) - 1)) == 0:
+            from fractions import Fraction
+            return cg.exact_decimal(Fraction(int(a), int(b)))
+    return tok
+
+
+def render_raw(lines, rng):
+    eol = rng.choice(["\n", "\n", "\r\n"])
+    fancy = rng.random() < 0.6
+    out = []
+    for l in lines:
+        toks = []
+        for t in l:
+            # a comment may be glued to a ratio: only the data part is converted
+            head, sepc, tail = t.partition("#")
+            toks.append(undo_ratio(head) + sepc + tail)
+        s = ""
+        if fancy and rng.random() < 0.3:
+            s += rng.choice(SEPS)
+        for k, t in enumerate(toks):
+            if k:
+                if fancy and rng.random() < 0.03:
+                    s += rng.choice(FAKE_SEPS)
+                else:
+                    s += rng.choice(SEPS) if fancy else " "
+            s += t
+        if fancy and rng.random() < 0.3:
+            s += rng.choice(SEPS)
+        out.append(s)
+    text = eol.join(out) + (eol if rng.random() < 0.8 else "")
+    if fancy and rng.random() < 0.2:
+        text = rng.choice(["\n", " \n", "﻿", "\r\n\r\n"]) + text
+    return text
+
+
+def char_edits(text, rng, k):
+    cs = list(text)
+    for _ in range(k):
+        if not cs:
+            break
+        i = rng.randrange(len(cs))
+        r = rng.random()
+        if r < 0.4:
+            cs[i] = rng.choice(EDIT_POOL)
+        elif r < 0.7:
+            cs.insert(i, rng.choice(EDIT_POOL))
+        else:
+            del cs[i]
+    return "".join(cs)
+
+
+def meta_count(lines):
+    st, secs = cg.split_sections(lines)
+    if st != "ok":
+        return 0
+    parts = [t for l in secs["meta"] for t in l]
+    return cg.parse_u(parts[2], cg.USIZE) or 0
+
+
+_EXP = re.compile(r"^[+-]?(?:[0-9]+\.?[0-9]*|\.[0-9]+)[eE]([+-]?[0-9]+)$")
+
+
+def float_outside_model(tok):
+    """valid f64 literals the model cannot represent (documented limits): big exponents, inf / nan"""
+    t = tok.split("#")[0]
+    m = _EXP.match(t)
+    if m and abs(int(m.group(1))) > 30:
+        return True
+    if cg._RATIO.match(t) and int(t.split("/")[1]) != 0:
+        return True     # the harness notation p/q: accepted by the model's coordinate reader only
+    return t.lstrip("+-").lower() in ("inf", "infinity", "nan")
+
+
+def make_raw_case(cid, rng, text, mut, data=None):
+    """text: str (UTF-8 encoded) or, with data, raw bytes that are not valid UTF-8"""
+    mask = rng.choice([0, 0, 7, 23])
+    if data is not None:
+        ana = {"kind": "utf8", "detail": "", "expect": None}
+        payload = data.hex()
+    else:
+        toks = cg.tokenise_text(text)
+        if meta_count(toks) > 5000:
+            return None            # the loader allocates n_darts before checking anything
+        if any(float_outside_model(t) for l in toks for t in l):
+            return None
+        ana = cg.analyse(toks)
+        if ana["kind"] == "ok":
+            # floats stay outside the model: keep only coordinates that are exactly representable as f64
+            from fractions import Fraction
+            for x, y in ana["expect"]["verts"].values():
+                for q in (x, y):
+                    try:
+                        if Fraction(float(q)) != q:
+                            return None
+                    except OverflowError:
+                        return None
+        payload = cg.hexs(text)
+    cl = ["new 2 0 0", f"loadhex {mask} {payload}".rstrip(), "snap", "ser", "wf", "serhex"]
+    sig = f"mut={mut};expect={ana['kind']} {ana['detail']}".strip()
+    return Case(cid, cl, oracle="c10", meta={"sig": sig, "ana": ana})
+
+
+def raw_texts(count, rng):
+    """character-level stream: (mutated) token texts rendered with CRLF / tabs / Unicode blanks / look-alike
+    non-blanks, then random character edits (non-digits, signs, overflow, glued tokens, broken headers, lost
+    newlines); a few files that are not UTF-8"""
+    cases = []
+    names = list(MUTATIONS)
+    k = 0
+    while len(cases) < count:
+        k += 1
+        t, info = base(rng, nmin=0 if k % 7 == 0 else 1, nmax=6)
+        tag = "raw"
+        r = rng.random()
+        if r < 0.45 and info["n"] >= 1:
+            name = names[k % len(names)]
+            t2 = copy.deepcopy(t)
+            try:
+                if MUTATIONS[name](rng, t2, info):
+                    t, tag = t2, f"raw-{name}"
+            except (IndexError, ValueError):
+                pass
+        text = render_raw(t.lines(), rng)
+        if rng.random() < 0.4:
+            text = char_edits(text, rng, rng.choice([1, 1, 2, 4]))
+            tag += "+edit"
+        if rng.random() < 0.05:
+            over = rng.choice(["4294967296", "4294967295", "18446744073709551616", "00000000000000000000001", "+0", "-0", "+", "1_0", "0x1", "٣"])
+            text = text.replace(" 0", " " + over, 1)
+            tag += "+num"
+        if rng.random() < 0.02:
+            b = text.encode("utf-8")
+            i = rng.randrange(len(b) + 1)
+            c = make_raw_case(f"raw{len(cases)}-utf8", rng, None, "raw-utf8", data=b[:i] + rng.choice([b"\xff", b"\xc3", b"\xe2\x80"]) + b[i:])
+        else:
+            c = make_raw_case(f"raw{len(cases)}-{tag}", rng, text, tag)
+        if c is not None:
+            cases.append(c)
+    return cases
+
+
+# ---------------------------------------------------------------------------------------------
 # oracle
 # ---------------------------------------------------------------------------------------------
 
@@ -451,6 +617,9 @@ def oracle_c10(case, li):
         return None
     ana = case.meta["ana"]
     rep = li[1]
+    if ana["kind"] == "utf8":
+        # not a text: `read_to_string(..).expect(..)` panics in from_cmap_file (outside the quantifier)
+        return None if rep == "panic" else f"[reply-mismatch] bytes that are not UTF-8: {rep!r}, expected 'panic'"
     if rep == "panic":
         return f"[panic] the loader panics (the Python reading expects {ana['kind']} {ana['detail']})"
     want = {"layout": "layout " + str(ana["detail"]), "err": "err " + str(ana["detail"]), "ok": "ok"}[ana["kind"]]
@@ -498,6 +667,7 @@ def run(tier, seed):
         parts.append(("single and double mutations", campaign(mutated(7800, rng))))
         parts.append(("random texts with valid layout", campaign(random_texts(4000, rng))))
         parts.append(("section-syntax token soup", campaign(layout_soup(3000, rng))))
+        parts.append(("raw characters (loadhex)", campaign(raw_texts(6000, rng))))
         parts.append(("special coordinate tokens (implementation only)",
                       campaign_impl_only(special_coord_cases(600, rng), oracle_c10)))
     else:
@@ -505,6 +675,7 @@ def run(tier, seed):
         parts.append(("single and double mutations", campaign(mutated(39000, rng))))
         parts.append(("random texts with valid layout", campaign(random_texts(30000, rng))))
         parts.append(("section-syntax token soup", campaign(layout_soup(30000, rng))))
+        parts.append(("raw characters (loadhex)", campaign(raw_texts(60000, rng))))
         parts.append(("special coordinate tokens (implementation only)",
                       campaign_impl_only(special_coord_cases(3000, rng), oracle_c10)))
     res = hv.merge_results(parts)
